@@ -5,7 +5,7 @@
    The composed statement for whole outcomes (C10_decode_encode: any number of channels, streams, aggregates) is
    proved in proofs/OutcomeRoundTrip.v from the wire-level lemmas below. *)
 From stdpp Require Import gmap.
-From DS Require Import Base Decimal StreamValue Wire Sort Aggregators Outcome OutcomeCodec.
+From DS Require Import Base Decimal StreamValue Wire Sort Aggregators Outcome OutcomeCodec PluginOutcome.
 From DS Require Import WireProofs StreamValueProofs OutcomeCodecProofs OutcomeRoundTrip ReportsNoPanic DecodedWf StepBytes.
 From DS Require CasesOutCodec.
 Open Scope Z_scope.
